@@ -2,7 +2,7 @@
    Property theorems only; the lemmas are in proofs/Lql*P.v. The library functions of the environment
    (path.Match, strings.ToUpper/ToLower, parseLqlDateTime) are universally quantified parameters. *)
 From LR Require Import lib.Base lib.GoStr model.LqlAst model.LqlLex model.LqlParse model.LqlPrint model.LqlEval.
-From LR Require Import proofs.LqlParseP proofs.LqlEvalP proofs.LqlMeaningP.
+From LR Require Import proofs.LqlParseP proofs.LqlEvalP proofs.LqlMeaningP proofs.LqlLexP proofs.LqlTextP proofs.LqlQuoteP.
 From Coq Require Import Strings.String.
 Local Open Scope string_scope.
 Local Open Scope list_scope.
@@ -21,6 +21,23 @@ Theorem C05_meaning : forall pmatch to_upper to_lower parse_time b,
               forall ev, revent_ok ev -> f (impl_event ev) = Ok (ref pmatch to_upper to_lower parse_time b ev).
 Proof. exact meaning. Qed.
 Print Assumptions C05_meaning.
+
+(* The same at byte level: the printed text itself (blanks, quoting and all) goes through the lexer, the Unquote
+   mapping and the parser. Additional hypotheses, all about the text: operands and word operators are ASCII
+   identifier-shaped (wt_cond: [a-zA-Z_][a-zA-Z0-9_./:-]*, symbol operators as they are), and the environment's
+   quoting function yields, for every value, a text that starts with a double quote, is exactly one String token
+   whatever follows (quote_lex), and that participle's unquote maps back to the value (vq_cond). *)
+Theorem C05_meaning_text : forall quote unq pmatch to_upper to_lower parse_time,
+  (forall v, exists tl, quote v = x22 :: tl) ->
+  (forall v rest, lex_one (quote v ++ rest) = Some (Some TString, List.length (quote v))) ->
+  forall b,
+  all_bconds writable_cond b = true -> all_bconds wt_cond b = true -> all_bconds (vq_cond quote unq) b = true ->
+  all_bconds (evaluable_cond pmatch to_upper to_lower parse_time) b = true ->
+  exists e f, parse_expr_text unq (show_text quote b) = Some (Some e) /\
+              build_where pmatch to_upper to_lower parse_time (Some e) = Some (Some f) /\
+              forall ev, revent_ok ev -> f (impl_event ev) = Ok (ref pmatch to_upper to_lower parse_time b ev).
+Proof. intros quote unq pm tu tl pt Hh Hl b. exact (meaning_text quote unq Hh Hl pm tu tl pt b). Qed.
+Print Assumptions C05_meaning_text.
 
 (* The same for every expression tree the parser can hand to the builder (not only the minimal-parentheses
    ones): the closure structure OR-of-AND-of-[NOT] evaluates the tree. *)
@@ -123,3 +140,15 @@ Example sample_ref :
   revent_ok ev /\ ref path_match ascii_upper ascii_lower sample_time sample ev = true /\
   ref path_match ascii_upper ascii_lower sample_time sample (REvent 5 (B "ccc") [(B "a", B "x")]) = false.
 Proof. cbn zeta. split; [repeat constructor; cbn; lia|]. split; vm_compute; reflexivity. Qed.
+
+(* the hypotheses about the quoting function are satisfiable: writing every byte as \xHH is such a function, and with
+   participle's unquote (lib/GoStr.v) the sample's values come back; the byte-level theorem then applies to `sample` *)
+Example quote_hyps_satisfiable :
+  (forall v, exists tl, qx v = x22 :: tl) /\
+  (forall v rest, lex_one (qx v ++ rest) = Some (Some TString, List.length (qx v))) /\
+  all_bconds wt_cond sample = true /\ all_bconds (vq_cond qx go_unquote) sample = true.
+Proof. split; [exact qx_head|]. split; [exact qx_lex|]. split; vm_compute; reflexivity. Qed.
+
+Example sample_text_parses :
+  parse_expr_text go_unquote (show_text qx sample) = Some (Some (to_expr sample)).
+Proof. vm_compute. reflexivity. Qed.
